@@ -250,7 +250,7 @@ def main(argv):
             if tier != 'thorough':
                 raise StopIteration
             pf = subprocess.run([replaymod.BIN, 'FACTS'] + files, capture_output=True, text=True, timeout=1200)
-            assumption_validation = {'what': 'parser facts PF0-PF17 and the grammar table on every node of %d corpus files (inputs and formatted outputs)' % len(files),
+            assumption_validation = {'what': 'parser facts PF0-PF22 and the grammar table on every node of %d corpus files (inputs and formatted outputs)' % len(files),
                                      'cmd': 'build/replay-target/debug/vp-replay FACTS <corpus>', 'summary': pf.stderr.strip()[-300:], 'violations': [l for l in pf.stdout.split('\n') if l.strip()][:20]}
             if pf.returncode != 0:
                 undecided.append('parser facts assumed by the contracts do not hold on the corpus: ' + '; '.join(assumption_validation['violations'][:3]))
